@@ -84,6 +84,22 @@ fn main() {
         println!("ST {}", hex(&AccessStructure::new().serialize().unwrap()));
         return;
     }
+    // `worker run <objects file>`: use the keys of the process that generated the objects, so that mutated
+    // encapsulations / headers / keys are really opened (a fresh scenario could never decapsulate them)
+    let mut g = g;
+    if let Some(path) = a.get(2) {
+        let txt = std::fs::read_to_string(path).unwrap();
+        let objs: Vec<(&str, Vec<u8>)> = txt.lines().filter_map(|l| l.split_once(' ')).map(|(k, h)| (k, unhex(h))).collect();
+        let get = |kind: &str, n: usize| objs.iter().filter(|(k, _)| *k == kind).nth(n).map(|(_, b)| b.clone()).unwrap();
+        g.msk = MasterSecretKey::deserialize(&get("MSK", 0)).unwrap();
+        g.mpk = MasterPublicKey::deserialize(&get("MPK", 0)).unwrap();
+        g.usk = UserSecretKey::deserialize(&get("USK", 0)).unwrap();
+        g.usk_h = UserSecretKey::deserialize(&get("USK", 1)).unwrap();
+        g.enc_c = XEnc::deserialize(&get("ENC", 0)).unwrap();
+        g.enc_h = XEnc::deserialize(&get("ENC", 1)).unwrap();
+        g.hdr = EncryptedHeader::deserialize(&get("HDR", 0)).unwrap();
+        g.hdr0 = EncryptedHeader::deserialize(&get("HDR", 1)).unwrap();
+    }
     let stdin = std::io::stdin();
     for (k, line) in stdin.lock().lines().enumerate() {
         let line = line.unwrap();
